@@ -145,6 +145,24 @@ def run(res, replay=None):
             res.violation('selected run differs from the model (first minimal loss)',
                           {'case': c, 'model_params': [float(fq(v)) for v in px[0]], 'model_loss': float(fq(pl_[0])), 'observed': m})
         res.sample({'case': c, 'result': m}, cap=2)
-    res.stream('inference', cases=len(cases))
+    # the optimised parameter is a parameter of the coalescent model: state-space caching on and off must agree, the generating
+    # value must be recovered
+    mcases = [] if replay else [{'family': 'beta', 'n': 4, 'truth': 1.625, 'x0': 1.25, 'bounds': [1.05, 1.95], 'seed': 5},
+                                 {'family': 'dirac', 'n': 4, 'truth': 0.625, 'x0': 0.25, 'bounds': [0.05, 0.95], 'seed': 6}][: (1 if res.tier == 'quick' else 2)]
+    mouts = C.run_impl_parallel('inference.py', [{'mode': 'modelparam', 'cases': [mc]} for mc in mcases], timeout=2400) if mcases else []
+    for mc, o in zip(mcases, mouts):
+        rr = o['results'][0]
+        res.count(('modelparam', json.dumps(mc)))
+        if 'error' in rr:
+            res.violation('inference over a model parameter raised', {'case': mc, 'error': rr['error']})
+            continue
+        a, b = rr['cache_on'], rr['cache_off']
+        if abs(a['v'] - b['v']) > 1e-6 or abs(a['loss'] - b['loss']) > 1e-9 * max(1.0, abs(b['loss'])):
+            res.violation('state-space caching on/off changes the result of an inference over a model parameter', {'case': mc, 'cache_on': a, 'cache_off': b})
+        elif abs(a['loss_at'] - a['loss']) > 1e-9 * max(1.0, abs(a['loss'])) + 1e-15:
+            res.violation('reported loss is not the loss at the reported parameters (inference over a model parameter)', {'case': mc, 'result': a})
+        elif abs(a['v'] - mc['truth']) > 1e-3:
+            res.violation('generating model parameter not recovered on noise-free data', {'case': mc, 'result': a})
+    res.stream('inference', cases=len(cases), model_parameter_cases=len(mcases))
     res.extra['input_distribution'] = {'n_runs': sorted(c['n_runs'] for c in cases), 'two_params': sum(1 for c in cases if c['two_params']),
                                        'loss': sorted(c['loss'] for c in cases), 'explicit_x0': sum(1 for c in cases if c['x0'] is not None)}
